@@ -328,6 +328,24 @@ func c06Stream(o *out, r *rng, thorough bool) {
 			runOne(t, reqs, fmt.Sprintf("exact%d:entries", n))
 		}
 	}
+	// a directory whose own path is just short of PATH_MAX, holding an entry whose full path is beyond it:
+	// the server cannot examine that entry; it is left out - of the bulk listing as of the entry-by-entry
+	// enumeration - and hides nothing else
+	{
+		t := &tree{}
+		t.add(tnode{path: "/", kind: 'd', mtime: genMtime(r)})
+		deep := ""
+		for i := 0; i < 16; i++ {
+			deep += "/" + strings.Repeat(string(rune('a'+i)), 240)
+			t.add(tnode{path: deep, kind: 'd', mtime: genMtime(r)})
+		}
+		t.add(tnode{path: deep + "/short.bin", kind: 'f', size: 77, seed: 5, mtime: genMtime(r)})
+		t.add(tnode{path: deep + "/sub", kind: 'd', mtime: genMtime(r)})
+		t.add(tnode{path: deep + "/" + strings.Repeat("Z", 255), kind: 'x'})
+		o.count("beyond-path-max")
+		runOne(t, []creq{{op: opOpenDir, path: deep}, {op: opReadDir}, {op: opOpenDir, path: deep}, {op: opReadDirEntry}, {op: opReadDirEntry},
+			{op: opReadDirEntry}, {op: opOpenDir, path: deep}, {op: opReadDirEntryV2}, {op: opReadDirEntryV2}, {op: opReadDirEntryV2}, {op: opGetDirSize, path: deep}}, "deep:list")
+	}
 	for ti := 0; ti < trees; ti++ {
 		t := genTree(r, 4, 8, true)
 		if ti%9 == 3 {
